@@ -9,13 +9,13 @@ CHECKS = {
          "trusts go/token.Pos ordering and the harness' own reference code table (copied from the book)", "DESIGN.md §3 C16"),
 }
 
-SITE_TXT = "Generated multi-package programs (all statement templates x nestings x contexts x annotation mixes, incl. package-level initialisers, constructor-named functions in other packages, decoys, test and excluded files, 6 configurations) are run through the real gogreement binary; every (line, analyzer) is judged against an independent three-valued reference model (MUST code / NEVER / FREE). Exploration: held on the programs generated for the tier and seed, nothing more."
+SITE_TXT = "Generated multi-package programs (all statement templates x nestings x contexts x annotation mixes, incl. package-level initialisers, constructor-named functions in other packages, decoys, test and excluded files, a dot-importing file, promoted fields/methods through embedding, method expressions, parenthesised operands/callees/receivers, alias receivers, types inside composite types, const groups, a file whose first uses are suppressed; 6 configurations) are run through the real gogreement binary; every (line, analyzer) is judged against an independent three-valued reference model (MUST code / NEVER / FREE). Exploration: held on the programs generated for the tier and seed, nothing more."
 SITE_NOTE = "trusts the Go toolchain (compile gate), the harness' generator and its reference model (written from the property statements and the book; kept honest by clean sweeps over several seeds and by seeded breakages)"
 for pid, an in (("C01","immutabilitychecker"),("C02","constructorchecker"),("C03","testonlychecker"),("C04","packageonlychecker")):
     CHECKS[pid] = ("runtime monitor: diagnostics of %s on generated programs vs per-site reference verdicts" % an, SITE_TXT, SITE_NOTE, "DESIGN.md §2.4, §3 "+pid)
 
 CHECKS["C07"] = ("runtime monitor: one @ignore comment inserted per run of the real binary; diagnostic set vs reference scope model",
-  "For diagnostics of all 16 codes in generated programs, one @ignore comment is inserted (trailing / before statement / before enclosing compound statement / before declaration, attached or detached / before the package clause; in scope and just outside: previous or next line, sibling, other file; 12 code-list shapes) and the real binary is re-run; every (line, analyzer) must match the reference scope model, including TONL01/PKGO01 moving to the next unsuppressed use.",
+  "For diagnostics of all 16 codes in generated programs, one @ignore comment is inserted (trailing / before statement / before enclosing compound statement / before declaration, attached or detached / before the package clause / trailing the package clause / dangling at the end of a body; in scope and just outside: previous or next line, sibling, other file; 12 code-list shapes) and the real binary is re-run; every (line, analyzer) must match the reference scope model, including TONL01/PKGO01 moving to the next unsuppressed use.",
   SITE_NOTE, "DESIGN.md §3 C07")
 CHECKS["C12"] = ("metamorphic runtime monitor: same program model re-rendered in layout variants; diagnostics compared by stable line id and judged by the layout-blind reference model",
   "Each generated program is run in its base layout and in 8 layout variants (declaration permutation, declarations moved between files, blank/comment lines, anti-formatting, local renaming and compositions); diagnostics keyed by stable line id (TONL01/PKGO01: per package and type) must equal the base rendering and the reference model.",
@@ -28,7 +28,7 @@ CHECKS["C14"] = ("runtime monitor: file of every diagnostic vs independent refer
   SITE_NOTE, "DESIGN.md §3 C14")
 
 CHECKS["C19"] = ("runtime model comparison: messages produced by the real reporting.Reporter on synthetic files vs excerpt/caret/length oracle",
-  "The real Reporter renders every (line length 0..3x limit, column 1..len+1) ASCII case (quick: every 3rd length plus all regime boundaries; thorough: all) and tens of thousands of tab / multi-byte / first-last-only-line / long-context / unreadable / shorter-on-disk / 64KB+ cases; each message is parsed and checked: excerpt = source line or ellipsis + contiguous substring + ellipsis within limit+6 containing the reported character, caret offset in characters with tabs mirrored, context lines are the neighbours, degraded inputs give no caret on a wrong line and no panic.",
+  "The real Reporter renders every (line length 0..3x limit, column 1..len+1) ASCII case (quick: every 3rd length plus all regime boundaries; thorough: all) and tens of thousands of tab / multi-byte / first-last-only-line / long-context / unreadable / shorter-on-disk / 64KB+ cases; each message is parsed and checked: excerpt = source line or ellipsis + contiguous substring + ellipsis within limit+6 containing the reported character, caret offset in characters with tabs mirrored, context lines are the neighbours, degraded inputs (unreadable file, file shorter than the line by 1..n lines) give a message without excerpt but with the documentation link, and no panic.",
   "trusts go/token position arithmetic; display limit read from reporting.MaxLineLength; East-Asian wide runes and column len+1 are FREE for caret placement", "DESIGN.md §3 C19")
 
 CHECKS["C08"] = ("runtime monitor: diagnostic set of the real binary under exclude-checks=S (flag / env) vs unrestricted run filtered by a reference hierarchy table",
@@ -39,15 +39,15 @@ CHECKS["C18"] = ("runtime monitor: fresh process per configuration on a probe mo
   "boolean FLAG values restricted to what the flag package accepts; GOGREEMENT_ENV_ONLY unset; reference rules written from the property statement", "DESIGN.md §3 C18")
 
 CHECKS["C15"] = ("runtime model comparison: real annotations.ReadAllAnnotations / ignore.ReadIgnoreAnnotations on synthetic files vs hand-written reference recogniser",
-  "Every candidate comment line (8 prefixes x 11 keywords and near-keywords x 4 separators x all argument token sequences of length <=3 quick / <=4 thorough over a 15-token alphabet, about 1.3M / 20M lines, plus fuzzed mutations of valid annotations and 17 attachment sites x 6 keywords) is the doc comment of its own type / func / method / field in a synthetic file handed to the real readers; recognised-or-not and the parsed arguments must equal a character-scanner recogniser written from the statement. Exhaustive inside the token bound, sampled outside.",
-  "trusts go/parser; recogniser and FREE classes (trailing-comma lists, digit-initial names, white space other than space/tab, non-ASCII) as in DESIGN.md", "DESIGN.md §3 C15")
+  "Every candidate comment line (8 prefixes x 11 keywords and near-keywords x 4 separators x all argument token sequences of length <=3 quick / <=4 thorough over a 16-token alphabet (incl. a non-ASCII identifier), about 1.7M / 25M lines, plus fuzzed mutations of valid annotations and 17 attachment sites x 6 keywords) is the doc comment of its own type / func / method / field in a synthetic file handed to the real readers; recognised-or-not and the parsed arguments must equal a character-scanner recogniser written from the statement. Exhaustive inside the token bound, sampled outside.",
+  "trusts go/parser; recogniser and FREE classes (trailing-comma lists, digit-initial names, white space other than space/tab, non-ASCII characters that are not letters or digits, any non-ASCII in @ignore lists) as in DESIGN.md", "DESIGN.md §3 C15")
 
 CHECKS["C17"] = ("runtime monitor over every diagnostic of all-codes programs: format / table / analyzer / position / help-link checks, re-run with '// @ignore <displayed code>' appended, text-mode exit status vs output",
-  "Every diagnostic produced on generated programs covering all 16 codes (default, scan-tests and exclude-paths configurations) is checked against reference tables written from the book (code table, analyzer <-> category, documentation page per category), its position must lie in a non-excluded file of the package being analysed and its excerpt must show the reported line; a sample of diagnostics per code (all those on the last declaration of a file first) is re-run with '// @ignore CODE' appended and the whole result compared with the reference model; the text-mode exit status must be non-zero exactly when something is printed.",
+  "Every diagnostic produced on generated programs covering all 16 codes (default, scan-tests and exclude-paths configurations) is checked against reference tables written from the book (code table, analyzer <-> category, documentation page per category), its position must lie in a non-excluded file of the package being analysed and its excerpt must show the reported line; a sample of diagnostics per code (all those on the last declaration of a file first) is re-run with '// @ignore CODE' appended and the whole result compared with the reference model; the text-mode exit status must be non-zero exactly when something is printed; a module whose positions are remapped by a //line directive to an unreadable file checks code / analyzer / help link without excerpt.",
   SITE_NOTE, "DESIGN.md §3 C17")
 
 CHECKS["C06"] = ("runtime monitor: normalised diagnostic sets of one module under 4 drivers / run sets + gob round trip of every exported fact observed at the Analyzer.Run seam",
-  "Generated import DAGs (declaring packages incl. byte-identical twin declarations as in api/v1 vs api/v2, using packages, a transit package, an unrelated annotated package) are analysed by standalone ./..., standalone with only leaf packages named, standalone with random package subsets, go vet -vettool (facts on disk), and the in-process x/tools checker with/without its fact sanity check and sequentially; all per-package diagnostic sets must be equal, every exported fact must survive gob and equal the reader's result, and toggling the annotations of a package must not change packages that do not import it.",
+  "Generated import DAGs (declaring packages incl. byte-identical twin declarations as in api/v1 vs api/v2, using packages, a transit package, an unrelated annotated package) are analysed by standalone ./..., standalone with only leaf packages named, standalone with random package subsets, go vet -vettool (facts on disk), and the in-process x/tools checker with/without its fact sanity check and sequentially; all per-package diagnostic sets must be equal, every exported fact must survive gob and equal the reader's result, and toggling the annotations of a package must not change packages that do not import it; a history probe replays two go vet runs with different GOGREEMENT_EXCLUDE_PATHS on one private GOCACHE in both orders against the standalone driver (known finding).",
   "trusts go vet/unitchecker and the x/tools checker; instrumentation wraps the exported analyzers inside the harness process only", "DESIGN.md §3 C06")
 CHECKS["C09"] = ("runtime monitor: diagnostic count on unannotated real-world corpora and on near-miss-salted generated programs must be zero",
   "(a) Packages of the Go standard library and of the repository's dependencies that pass a precondition scan are analysed by the real binary under 2 (quick) / 3 (thorough) configurations; (b) generated multi-package programs whose every annotation is replaced by one of 12 near-miss shapes (mid-sentence, block comment, other letter case, longer word, commented-out, detached, ...) while all would-be violations stay. Any diagnostic is a violation.",
@@ -62,8 +62,8 @@ CHECKS["C10"] = ("runtime termination monitor: exit status / stderr / analyzer e
   "hang bound on child CPU time (300 s); wall-clock watchdog only yields 'inconclusive'; the std-library overlay workload runs the real analyzers in-process inside a second harness binary built with go1.26.8 (the only toolchain whose GOROOT accepts overlays), not through the gogreement binary; strace fault injection is not built", "DESIGN.md §3 C10")
 
 CHECKS["C05"] = ("runtime differential monitor: IMPL01/02/03 (+ listed methods) of the real binary vs go/types (method sets, types.Identical, import binding) on the same generated module",
-  "Generated (type, interface) pairs over a signature grammar (basic incl. byte/uint8, rune/int32, any/interface{}; named local / imported / same-named from packages with equal names; pointers, slices, arrays, maps, funcs, chans with direction, variadics, aliases; value / pointer receivers; promotion through embedded E, *E and embedded interfaces; interface embedding; T an interface or non-struct; interface in the same package / imported / under alias / from a package whose name differs from its directory; & or not; unimported, missing, non-interface targets, blank imports), each an exact copy or a single-edit mutation of the interface's signatures, are analysed by the real binary; code and listed methods must equal what go/types says about the same module (cross-checked against types.Implements).",
-  "go/types is the reference for 'Go's own type checker'; generics and qualifiers that match only the last path element of an import are FREE", "DESIGN.md §3 C05")
+  "Generated (type, interface) pairs over a signature grammar (basic incl. byte/uint8, rune/int32, any/interface{}; named local / imported / same-named from packages with equal names; pointers, slices, arrays, maps, funcs, chans with direction, variadics, aliases; value / pointer receivers; promotion through embedded E, *E and embedded interfaces; interface embedding; T an interface or non-struct; interface in the same package / imported / under alias / from a package whose name differs from its directory; & or not; unimported, missing, non-interface targets, blank / renamed / raw-string imports, alias declarations as T, several annotation lines per type, sibling files binding one qualifier to different packages), each an exact copy or a single-edit mutation of the interface's signatures, are analysed by the real binary; code and listed methods must equal what go/types says about the same module (cross-checked against types.Implements).",
+  "go/types is the reference for 'Go's own type checker'; generics are FREE; a qualifier that matches only the last path element of an import is demanded as IMPL01 and listed as a known finding", "DESIGN.md §3 C05")
 
 PENDING_REASON = "monitor for this property is still under construction in this round (designed in DESIGN.md §3; not claimed until its check is silent on the unchanged tree)"
 def main():
